@@ -1457,6 +1457,9 @@ func checkC10(c *Ctx, r *Report) {
 	r.Count("effect_sites", nEffects)
 	// values stored into the event
 	c.checkEventPopulation(r, R)
+	// "their results appear in the record": the populated event must still hold them when it is formatted —
+	// an event released to the pool while queued or in use is reset (shared with C03.event)
+	r.include("C10.record/", "event-typestate", func(sub *Report) { c.checkEventTypestate(sub, ro) })
 	// worker does not reach hooks
 	if ro.Worker != nil {
 		bad := 0
